@@ -142,6 +142,12 @@ def verify(prop, tier='quick'):
             out += symham.verify()
         except Exception as e:
             out.append(Verdict('local_terms', 'S', 'undecided', f'engine S error: {type(e).__name__}: {e}', 0, 'hamiltonian', 'ensures', 'sympy'))
+    if prop == 'C07':
+        try:
+            from . import symham
+            out += symham.verify_molecular()
+        except Exception as e:
+            out.append(Verdict('molecular_chains', 'S', 'undecided', f'engine S error: {type(e).__name__}: {e}', 0, 'hamiltonian', 'ensures', 'sympy'))
     if prop in ('C12', 'C13'):
         from . import ztrunc
         try:
